@@ -97,7 +97,7 @@ def make_config(c):
         tis["interface_cap"] = float(c["cap"])
     return {
         "runner": {"workers": c["workers"], "wmdrun": ["x"] * c["workers"]},
-        "simulation": {"interfaces": interfaces(n), "steps": c["first_leg"], "seed": c["seed"],
+        "simulation": {"interfaces": interfaces(n), "steps": leg_targets(c)[0], "seed": c["seed"],
                        "load_dir": "load", "shooting_moves": list(c["moves"]), "tis_set": tis},
         "engine": {"class": "LatticeEngine", "module": PLUGIN, "timestep": 1.0, "subcycles": 1,
                    "wall": c.get("wall", -6), "temperature": 1.0},
@@ -157,6 +157,35 @@ def live_rows(nintf, moves, cap):
                  "traj_num": cur["traj_num"]}
 
 
+def leg_targets(c):
+    """cumulative step targets of the legs: [first_leg, steps] for one restart in the middle, or —
+    with `restart_every = [lo, hi]` — a restart after every lo..hi steps (seeded)"""
+    if c.get("restart_every"):
+        lo, hi = c["restart_every"]
+        rr = random.Random(c.get("restart_seed", 0))
+        t, out = 0, []
+        while t < c["steps"]:
+            t = min(c["steps"], t + rr.randint(lo, hi))
+            out.append(t)
+        return out
+    if c["steps"] > c["first_leg"]:
+        return [c["first_leg"], c["steps"]]
+    return [c["first_leg"]]
+
+
+def _drop_log_handlers():
+    """setup_logger() adds a FileHandler per scheduler() call; close them so that hundreds of legs
+    in one process do not run out of file descriptors (diagnostics only)"""
+    for name in ("main", ""):
+        lg = logging.getLogger(name)
+        for h in list(lg.handlers):
+            lg.removeHandler(h)
+            try:
+                h.close()
+            except Exception:  # noqa: BLE001
+                pass
+
+
 def run_config(c):
     """one configuration, in the current (child) process.  Returns a plain dict."""
     import tomli
@@ -188,21 +217,27 @@ def run_config(c):
             tomli_w.dump(make_config(c), f)
         config = setup_config("infretis.toml")
         sched.scheduler(config)
-        legs = [c["first_leg"]]
-        if c["steps"] > c["first_leg"]:
-            # restart: the user edits `steps` in restart.toml and runs `infretisrun -i restart.toml`
+        _drop_log_handlers()
+        # restarts: the user edits `steps` in restart.toml and runs `infretisrun -i restart.toml`.
+        # Every leg is a complete setup_config + scheduler() call: the whole state (paths, weights,
+        # fractions, locks, generator) is rebuilt from what the previous leg left on disk.
+        targets = leg_targets(c)
+        res["n_restarts"] = 0
+        for tgt in targets[1:]:
             with open("restart.toml", "rb") as f:
                 rc = tomli.load(f)
-            res["restart_cstep"] = rc["current"]["cstep"]
-            res["restart_locked"] = rc["current"].get("locked", [])
-            rc["simulation"]["steps"] = c["steps"]
+            if res["n_restarts"] == 0:
+                res["restart_cstep"] = rc["current"]["cstep"]
+                res["restart_locked"] = rc["current"].get("locked", [])
+            rc["simulation"]["steps"] = tgt
             with open("restart.toml", "wb") as f:
                 tomli_w.dump(rc, f)
             config2 = setup_config("restart.toml")
             if config2 is None:
-                raise RuntimeError("setup_config('restart.toml') returned None")
+                raise RuntimeError(f"setup_config('restart.toml') returned None before leg to {tgt}")
             sched.scheduler(config2)
-            legs.append(c["steps"])
+            _drop_log_handlers()
+            res["n_restarts"] += 1
         files = sorted(x for x in os.listdir(".") if x.startswith("infretis_data"))
         res["data_files"] = files
         res["rows"] = parse_data_file("infretis_data.txt", n)
